@@ -7,11 +7,12 @@ import sympy as sp
 import z3
 
 STATS = {'queries': 0, 'time': 0.0, 'unknown': 0}
+LAST = {'abstracted': False}
 
 
 class Enc:
     def __init__(self):
-        self.vars = {}; self.side = []; self.opaque = {}; self.n = 0
+        self.vars = {}; self.side = []; self.opaque = {}; self.n = 0; self.abstracted = False
 
     def var(self, s):
         if s not in self.vars:
@@ -27,6 +28,7 @@ class Enc:
         return self.vars[s]
 
     def fresh(self, key, pos=False, nonneg=False):
+        if not (isinstance(key, tuple) and key and key[0] == 'root'): self.abstracted = True
         if key not in self.opaque:
             v = z3.Real('op%d' % len(self.opaque)); self.opaque[key] = v
             if pos: self.side.append(v > 0)
@@ -88,12 +90,31 @@ class Enc:
             for val, cond in reversed(e.args):
                 r = self.t(val) if r is None else z3.If(self.b(cond), self.t(val), r)
             return r
-        if isinstance(e, sp.exp): return self.fresh(e, pos=True)
+        if isinstance(e, sp.exp):
+            v = self.fresh(e, pos=True); k = ('bnd', e)
+            if k not in self.opaque:
+                self.opaque[k] = True; a = self.t(e.args[0])
+                self.side += [(v >= 1) == (a >= 0), (v > 1) == (a > 0), v >= 1 + a]
+            return v
+        if isinstance(e, sp.log):
+            v = self.fresh(e); k = ('bnd', e)
+            if k not in self.opaque:
+                self.opaque[k] = True; a = self.t(e.args[0])
+                self.side += [z3.Implies(a > 0, z3.And((v >= 0) == (a >= 1), (v > 0) == (a > 1), v <= a - 1))]
+            return v
         if isinstance(e, (sp.cosh,)): return self.fresh(e, pos=True)
         if isinstance(e, (sp.sin, sp.cos)):
             v = self.fresh(e)
             if ('bnd', e) not in self.opaque:
                 self.opaque[('bnd', e)] = True; self.side += [v <= 1, v >= -1]
+            return v
+        if isinstance(e, (sp.acos, sp.asin, sp.atan)):
+            v = self.fresh(e); k = ('bnd', e)
+            if k not in self.opaque:
+                self.opaque[k] = True; pi = self.t(sp.pi)
+                if isinstance(e, sp.acos): self.side += [v >= 0, v <= pi]
+                elif isinstance(e, sp.asin): self.side += [2 * v >= -pi, 2 * v <= pi]
+                else: self.side += [2 * v > -pi, 2 * v < pi]
             return v
         if e.is_number and e.is_real:
             # irrational constant: enclose
@@ -136,6 +157,7 @@ def check(conds, timeout_ms=3000):
     for z in zs: s.add(z)
     for z in enc.side: s.add(z)
     t0 = time.time(); r = s.check(); STATS['time'] += time.time() - t0; STATS['queries'] += 1
+    LAST['abstracted'] = enc.abstracted
     if r == z3.sat:
         m = s.model(); out = {}
         for sym, zv in enc.vars.items():
